@@ -24,12 +24,8 @@ def obligations(tier):
                     replace=["vhm_mm_sha256rnds2_epu32:uf_rnds2"], backends=["cadical"], timeout=to,
                     claim="SHA256_Transform_shani with SHA256RNDS2 uninterpreted: lanes (A,B,E,F)/(C,D,G,H) loaded from the state, 32 chained instructions, feed-forward and un-shuffle; with the model lemma (SHA256RNDS2 = two FIPS rounds) and the schedule obligations: == FIPS 180-4",
                     bounds="none", stubs=X + ["SHA256RNDS2 -> logging uninterpreted function"]))
-    if T: obs.append(dict(name="sha256-shani-rounds", harness="sha_accel.c", entry="h_shani_rounds", defs=["USE_SHANI"], flags=["--no-standard-checks"], backends=["z3tactic", "cadical", "kissat"], timeout=to,
-                    claim="SHA256_Transform_shani: new state == state + 64 FIPS rounds over the consumed schedule", bounds="none", stubs=X + ["SHA256RNDS2 -> logging wrapper"], **SH))
-    if T:
-        obs.append(dict(name="sha256-shani-equals-standard", harness="sha_accel.c", entry="h_shani", defs=["USE_SHANI"], cpu=["X86_SHANI", "X86_SSSE3"], model_inc=["x86"], unwind=100,
-                    flags=["--no-standard-checks"], backends=["z3tactic", "cadical", "kissat"], timeout=to,
-                    claim="SHA256_Transform_shani == FIPS 180-4 compression for every (state, block), as ONE query (quick tier: decomposed)", bounds="none", stubs=X))
+    # the 64 rounds over the logged schedule as one query (h_shani_rounds) and the whole-function miter (h_shani without SAFETY_ONLY) had no verdict in
+    # 1800 s on z3tactic/cadical/kissat (thorough runs 2 and 3); the decomposition above is what decides SHA-NI, so they are not registered
     obs.append(dict(name="sha256-shani-memory-safe", harness="sha_accel.c", entry="h_shani", defs=["USE_SHANI", "SAFETY_ONLY"], cpu=["X86_SHANI", "X86_SSSE3"], model_inc=["x86"], unwind=100,
                     backends=["cadical"], timeout=to, claim="no out-of-bounds access or UB in SHA256_Transform_shani", bounds="none", stubs=X))
     obs.append(dict(name="sha256rnds2-model-lemma", harness="sha_accel.c", entry="h_shani_model_lemma", defs=["USE_SHANI"], cpu=["X86_SHANI", "X86_SSSE3"], model_inc=["x86"], unwind=100,
